@@ -53,15 +53,17 @@ the `case <-r.terminate:` alternative and every send of the server connection re
 `case <-cr.sc.ctx.Done():` alternative — what the model's `readerClose` / `readerExit` steps (the reader can
 always be joined) rest on.  Also: the PLAY handler creates the write queue only when the session is not
 playing yet (a second PLAY must not replace the running writer), destroys it on error under the same
-condition, the session destroys it before `OnSessionClose`, and `Client.doClose` closes the socket also when
-the reader has already gone. -/
+condition, the session destroys it before `OnSessionClose`, `Client.doClose` closes the socket also when
+the reader has already gone, and `Client.reset()` (redirect, switch to TCP) runs `doClose()` BEFORE it resets
+`state` (`doClose` looks at `state` to decide whether a writer and transport routines have to be stopped). -/
 theorem code_shape_channels :
     Life.clientReaderBareSends = 0 ∧ Life.clientReaderSends = Life.clientReaderSendsWithTerminate ∧
     Life.serverReaderBareSends = 0 ∧ Life.serverReaderSends = Life.serverReaderSendsWithCtx ∧
     Life.serverBareSends = 0 ∧ Life.connBareSends = 0 ∧ Life.sessBareSends = 0 ∧ Life.clientBareSends = 0 ∧
     0 < Life.clientReaderSends ∧ 0 < Life.serverReaderSends ∧
     Life.playCreatesWriterOnce = true ∧ Life.playDestroysWriterOnError = true ∧
-    Life.sessionDestroysWriterOnClose = true ∧ Life.clientDoCloseClosesSocketAnyway = true := by decide
+    Life.sessionDestroysWriterOnClose = true ∧ Life.clientDoCloseClosesSocketAnyway = true ∧
+    Life.clientResetClosesFirst = true ∧ Life.clientSwitchResetsBeforeResetup = true := by decide
 
 /-! ## Accepted traces are balanced and ordered -/
 
